@@ -8,8 +8,8 @@ def build_spec(profile=None):
     spec = new_spec()
     spec.profile = profile
     from . import (classes, lib_std, relies, c_process, c_watcher, c_util, c_sync, c_arbiter,
-                   c_commands, c_stream, c_controller, c_options, c_signal, c_manage, c_pidfile, c_shutdown, c_redirector, c_format, c_spawn, c_client, c_procwrap)
+                   c_commands, c_stream, c_controller, c_options, c_signal, c_manage, c_pidfile, c_shutdown, c_redirector, c_format, c_spawn, c_client, c_procwrap, c_sockets)
     for m in (classes, lib_std, relies, c_process, c_watcher, c_util, c_sync, c_arbiter, c_commands,
-              c_stream, c_controller, c_options, c_signal, c_manage, c_pidfile, c_shutdown, c_redirector, c_format, c_spawn, c_client, c_procwrap):
+              c_stream, c_controller, c_options, c_signal, c_manage, c_pidfile, c_shutdown, c_redirector, c_format, c_spawn, c_client, c_procwrap, c_sockets):
         m.declare(spec)
     return spec
